@@ -31,22 +31,22 @@ type hist struct {
 	rcMode bool
 	m      machine
 
-	prev        view // the store as last summarised on a line
-	last        view // the store after the last committed block / collection
-	cont        map[string][]byte
-	recs        map[uint32]*rec
-	heights     []uint32
-	gcDone      bool
-	gcAt        uint32
-	tied        bool
-	rootOnly    bool // after a dropped block with the live trie in memory: only state roots are compared
-	afterDrop   bool
-	dropWild    bool              // some dropped block was outside the model (contents unpredictable)
-	spec        map[string][]byte // after a tied drop: the contents the property asks for (h.cont is then the as-built contents)
-	dropKeys    map[string]bool   // failure keys already reported after a drop
-	dead        bool // the machine panicked or errored: the case is over
-	probes      [][]byte
-	persisted   int64 // height of the last block at the time of the last persist (-1: nothing persisted yet)
+	prev      view // the store as last summarised on a line
+	last      view // the store after the last committed block / collection
+	cont      map[string][]byte
+	recs      map[uint32]*rec
+	heights   []uint32
+	gcDone    bool
+	gcAt      uint32
+	tied      bool
+	rootOnly  bool // after a dropped block with the live trie in memory: only state roots are compared
+	afterDrop bool
+	dropWild  bool              // some dropped block was outside the model (contents unpredictable)
+	spec      map[string][]byte // after a tied drop: the contents the property asks for (h.cont is then the as-built contents)
+	dropKeys  map[string]bool   // failure keys already reported after a drop
+	dead      bool              // the machine panicked or errored: the case is over
+	probes    [][]byte
+	persisted int64 // height of the last block at the time of the last persist (-1: nothing persisted yet)
 }
 
 func newHist(o *hx.Out, k int, mode string, m machine) *hist {
@@ -381,13 +381,9 @@ func (h *hist) drop(idx uint32, ops []subop) {
 	h.afterDrop = true
 	cur := h.m.View()
 	if !sameView(cur, h.last) {
-		if x, ok := h.m.(*modM); ok && x.copies {
-			h.o.Fail("addmptbatch-writes-through", h.k, "[%s/%s] dropped block %d changed the node store below the cache", h.m.Name(), h.mode, idx)
-		} else {
-			// since 956252a only possible after a restart (lazily loaded nodes alias the store's slices):
-			// folded into uncommitted-block:wild there, unknown after a tied drop
-			h.fail("drop-changed-store", "a dropped block changed the node store (in place, through shared slices)")
-		}
+		// since 956252a / bb76634 nothing below the block's cache is written before a commit, on any
+		// lower layer, restarted or not: never folded into the known keys
+		h.o.Fail("addmptbatch-writes-through", h.k, "[%s/%s] dropped block %d changed the node store below the cache", h.m.Name(), h.mode, idx)
 	}
 }
 
